@@ -5,6 +5,10 @@ namespace nmv {
 std::map<std::string, vop_t>& vops() { static std::map<std::string, vop_t> r; return r; }
 }
 using namespace nmv;
+#include "nmtools/utl.hpp"
+template <typename T> using leaf_hb_t = na::ndarray_t<nm::utl::static_vector<T, 512>, std::vector<size_t>>;
+template <typename T> using leaf_hs_t = na::ndarray_t<std::vector<T>, nm::utl::static_vector<size_t, 6>>;
+template <typename T> using leaf_hb_col_t = na::column_major_ndarray_t<nm::utl::static_vector<T, 512>, std::vector<size_t>>;
 
 static val_t promote(const val_t& v) {
     if (auto p = std::get_if<eint>(&v)) {
@@ -33,15 +37,30 @@ static void run_pipe(const J& A, W& w, bool staged, bool do_eval) {
     std::vector<std::shared_ptr<void>> keep;
     for (auto& ja : A["arrays"].a) {
         auto shp = ja["shape"].ivec<size_t>();
-        if (ja.has("dt") && ja["dt"].as_str() == "f64") {
-            auto leaf = make_leaf<double>(shp, ja["data"].dvec<double>());
+        std::string kind = ja.has("kind") ? ja["kind"].as_str() : "dyn";
+        auto add = [&](auto tag, auto arr_tag) {
+            using T = typename decltype(tag)::type;
+            using Arr = typename decltype(arr_tag)::type;
+            auto leaf = std::make_shared<Arr>();
+            if (!do_resize(*leaf, shp)) throw std::runtime_error("leaf resize refused");
+            std::vector<T> data;
+            if constexpr (std::is_floating_point_v<T>) data = ja["data"].template dvec<T>(); else data = ja["data"].template ivec<T>();
+            size_t k = 0;
+            for (odometer o(shp); !o.done; o.next()) at_idx(*leaf, o.idx) = data[k++];
             keep.push_back(leaf);
-            vals.push_back(std::make_shared<val_t>(erase_leaf(leaf)));
-        } else {
-            auto leaf = make_leaf<int>(shp, ja["data"].ivec<int>());
-            keep.push_back(leaf);
-            vals.push_back(std::make_shared<val_t>(erase_leaf(leaf)));
-        }
+            erased_t<T> e; e.shape_ = shp;
+            e.get_ = [leaf](const std::vector<size_t>& idx) -> T { return at_idx(std::as_const(*leaf), idx); };
+            vals.push_back(std::make_shared<val_t>(e));
+        };
+        bool f64 = ja.has("dt") && ja["dt"].as_str() == "f64";
+#define NMV_LEAF(KIND, ...) if (kind == KIND) { if (f64) add(meta::as_value_v<double>, meta::as_value_v<__VA_ARGS__<double>>); else add(meta::as_value_v<int>, meta::as_value_v<__VA_ARGS__<int>>); continue; }
+        NMV_LEAF("dyn", dyn_t)
+        NMV_LEAF("col", dyn_col_t)
+        NMV_LEAF("hb", leaf_hb_t)
+        NMV_LEAF("hs", leaf_hs_t)
+        NMV_LEAF("hb_col", leaf_hb_col_t)
+#undef NMV_LEAF
+        throw std::runtime_error("unknown leaf kind " + kind);
     }
     opts().eval = do_eval;
     opts().eval_inferred = !(A.has("no_inferred") && A["no_inferred"].as_bool());
